@@ -41,6 +41,14 @@ MUTATIONS = {
     "merge-surrogate-symbols": (SYM, "] = variables | parameters | data  # type: ignore", "] = variables | parameters | data | surrogates  # type: ignore"),
     "skip-unknown-flux": (SYM, "        for rxn, stoich_value in stoich.items():\n", "        for rxn, stoich_value in stoich.items():\n            if rxn not in rxns:\n                continue\n"),
     "silent-fallback": (SIM, "                _LOGGER.warning(str(e), stacklevel=2)\n\n        y0 = self.y0", "                del e\n\n        y0 = self.y0"),
+    # symbol assumptions / the state names of the lambdified Jacobian (seeded changes C12-4, C12-5 and neighbours)
+    "nonneg-variable-symbols": ("apply", "/verif/seeded/C12-4/patch.diff"),
+    "y0-key-order": ("apply", "/verif/seeded/C12-5/patch.diff"),
+    "positive-parameter-symbols": (SYM, "cast(list[sympy.Symbol], list_of_symbols(model.get_parameter_values())),",
+                                   "[sympy.Symbol(k, positive=True) for k in model.get_parameter_values()],"),
+    "nonneg-all-symbols": ("src/mxlpy/meta/sympy_tools.py", "return [sympy.Symbol(arg) for arg in args]", "return [sympy.Symbol(arg, nonnegative=True) for arg in args]"),
+    "sorted-state-names": (SIM, '                        "time",\n                        self.model.get_variable_names(),\n                        _par_names,',
+                           '                        "time",\n                        sorted(self.model.get_variable_names()),\n                        _par_names,'),
     "dyn-overwrite": (SYM, "eqs[cpd] = eqs.get(cpd, sympy.Float(0.0)) + coef * rxns[rxn]", "eqs[cpd] = coef * rxns[rxn]"),
 }
 
@@ -54,6 +62,8 @@ def main() -> int:
         if subprocess.call("patch -p1 -s < /verif/fixes/C12-dynamic-coefficient.diff", shell=True):
             return 2
     m = MUTATIONS[name]
+    if m[0] == "apply":
+        return subprocess.call(f"patch -p1 -s < {m[1]}", shell=True)
     if m[0] == "patch":
         if os.environ.get("C12_PENDING_FIX") and name == "rev-dynamic-coefficient":
             return 0  # /repo without the pending fix IS this mutation
